@@ -186,7 +186,8 @@ func bubbleA(t *testing.T, hist []Op) (key string, p *problem) {
 // ---------------------------------------------------------------- part C: concurrent publishers under the controlled scheduler
 
 type ConcCase struct {
-	Pubs [][]Op // per publisher goroutine
+	Pubs  [][]Op // per publisher goroutine
+	Fresh bool   // the topic does not exist before the publishers start (no handler registered)
 }
 
 func concHarness(c ConcCase) vsched.Harness {
@@ -195,7 +196,9 @@ func concHarness(c ConcCase) vsched.Harness {
 		Setup: func() (func(), func(*vsched.Exec)) {
 			tp := alert.NewTopics(0)
 			h := &rec{}
-			tp.RegisterHandler("t", h)
+			if !c.Fresh {
+				tp.RegisterHandler("t", h)
+			}
 			t0 := time.Date(2000, 1, 1, 0, 0, 0, 0, time.UTC)
 			body := func() {
 				done := make(chan struct{}, len(c.Pubs))
@@ -231,6 +234,36 @@ func concHarness(c ConcCase) vsched.Harness {
 				total := 0
 				for _, ops := range c.Pubs {
 					total += len(ops)
+				}
+				if c.Fresh {
+					// no handler: state only. Every id collected must have a state (the last level its publisher
+					// collected: ids are not shared between publishers in these cases), Collected = total
+					lastOf := map[string]alert.Level{}
+					for _, ops := range c.Pubs {
+						for _, o := range ops {
+							lastOf[o.ID] = o.Level
+						}
+					}
+					var st []string
+					max := alert.OK
+					for id, l := range lastOf {
+						es, ok := tp.EventState("t", id)
+						st = append(st, fmt.Sprintf("%s=%s/%v", id, es.Level, ok))
+						if !ok || es.Level != l {
+							x.Key, x.Problem = "conc-fresh-topic-state", fmt.Sprintf("after concurrent first collects on a new topic, event %s has state (%s, present=%v), want %s", id, es.Level, ok, l)
+							return
+						}
+						if l > max {
+							max = l
+						}
+					}
+					sort.Strings(st)
+					x.Outcome = strings.Join(st, " ")
+					ts := tp.TopicState("", alert.OK)["t"]
+					if ts.Level != max || ts.Collected != int64(total) {
+						x.Key, x.Problem = "conc-fresh-topic-state", fmt.Sprintf("topic reports level %s collected %d, want %s and %d", ts.Level, ts.Collected, max, total)
+					}
+					return
 				}
 				if len(h.evs) != total {
 					x.Key, x.Problem = "conc-delivery", fmt.Sprintf("%d events collected, handler saw %d: %v", total, len(h.evs), log)
@@ -276,6 +309,8 @@ func concHarness(c ConcCase) vsched.Harness {
 func concCases() []ConcCase {
 	mk := func(id string, l alert.Level) Op { return Op{"collect", id, l} }
 	return []ConcCase{
+		{Fresh: true, Pubs: [][]Op{{mk("a", alert.Critical)}, {mk("b", alert.Warning)}}},
+		{Fresh: true, Pubs: [][]Op{{mk("a", alert.Critical), mk("a", alert.OK)}, {mk("b", alert.Warning)}, {mk("c", alert.Info)}}},
 		{Pubs: [][]Op{{mk("a", alert.Critical)}, {mk("a", alert.Warning)}}},
 		{Pubs: [][]Op{{mk("a", alert.Critical), mk("a", alert.OK)}, {mk("a", alert.Warning)}}},
 		{Pubs: [][]Op{{mk("a", alert.Critical)}, {mk("b", alert.Warning)}, {mk("a", alert.OK)}}},
@@ -284,6 +319,7 @@ func concCases() []ConcCase {
 }
 
 type Replay struct {
+	HistB []BOp
 	Hist  []Op
 	Conc  *ConcCase
 	Picks []int
@@ -299,6 +335,13 @@ func TestCheck(t *testing.T) {
 		var rp Replay
 		if err := rep.LoadReplay(&rp); err != nil {
 			t.Fatal(err)
+		}
+		if len(rp.HistB) > 0 {
+			if p := bubbleB(t, rp.HistB); p != nil {
+				r.Violation("B-"+p.kind, p.msg, rp)
+			}
+			r.Add("evaluations", 1)
+			return
 		}
 		if rp.Conc != nil {
 			x := vsched.RunOne(t, concHarness(*rp.Conc), rp.Picks)
@@ -360,6 +403,48 @@ func TestCheck(t *testing.T) {
 	}
 	r.SetMax("bfs_depth", int64(depth))
 	r.Note("part_A_closed", len(frontier) == 0)
+
+	// part B: handler specs of the alert service (match expressions, update, rename, publish), all histories up to the depth
+	depthB := 3
+	if rep.Thorough() {
+		depthB = 4
+	}
+	bops := opsB(rep.Thorough())
+	nb := 0
+	var recB func(hist []BOp)
+	recB = func(hist []BOp) {
+		if len(hist) > 0 {
+			nb++
+			if nb%nshards == shard {
+				if r.Expired() {
+					r.Cap("deadline in part B")
+					return
+				}
+				// only histories that end in a collect can show a new handler log entry
+				if hist[len(hist)-1].Kind == "collect" {
+					p := bubbleB(t, hist)
+					r.Add("evaluations", 1)
+					r.Add("transitions", int64(len(hist)))
+					r.Add("partB_histories", 1)
+					r.AddDistinct("nontrivial", 1)
+					if p != nil {
+						r.Violation("B-"+p.kind, p.msg, Replay{HistB: hist})
+					}
+					if shard == 0 && nb%4000 == 1 {
+						r.Sample(map[string]any{"partB_history": fmt.Sprint(hist)})
+					}
+				}
+			}
+		}
+		if len(hist) == depthB {
+			return
+		}
+		for _, o := range bops {
+			// prune: thorough depth 4 only extends histories that contain at most one non-collect suffix... (none: full)
+			recB(append(append([]BOp(nil), hist...), o))
+		}
+	}
+	recB(nil)
 
 	// part C
 	bound := 2
